@@ -1,5 +1,5 @@
 """C09 -- scheduler core (work in progress: metadata filled in below)."""
-from props.common import contract_tasks, lemma_tasks, TRUSTED_CORE
+from props.common import contract_tasks, lemma_tasks, TRUSTED_CORE, SCHED_ASSUMPTIONS
 
 PROPERTY = "C09"
 
@@ -9,11 +9,11 @@ def tasks(tier):
 
 
 TRUSTED_BASE = TRUSTED_CORE
-ASSUMPTIONS = []
-NOT_COVERED = []
-LEVEL_TEXT = 'The same-time loop guard in sim_process raises SimulationError naming the simulator IFF some sub-step tier has reached max_loop_iterations (exact condition at the raise site and as ghost assertion at BEGIN); sub-tiers are reset when the output time advances (get_outputs exact clause).'
+ASSUMPTIONS = SCHED_ASSUMPTIONS
+NOT_COVERED = ["'simulation time then advances normally' is covered as far as C02/C05 go (safety); no liveness"]
+LEVEL_TEXT = 'The same-time loop guard in sim_process raises SimulationError naming the simulator IFF some sub-step tier has reached max_loop_iterations (exact condition at the raise site and as ghost assertion at BEGIN); sub-tiers are reset when the time tier advances (delay algebra); loops below the bound are never interrupted (the raise site is unreachable otherwise).'
 DESIGN_REF = "DESIGN.md section 8 (C09)"
-LEVEL_NOTE = 'Trusted: pyvc encoder (Python semantics of DESIGN 3.4), the rely/guarantee meta-theorem for cooperative asyncio tasks (DESIGN 6, not mechanised), assumed contracts of asyncio/heapq, time/delay algebra axioms (each with provenance to a C08 obligation), static connection-table facts static_ok/trig_static (assumed here; established by the scenario.py contracts where built), non-real-time mode, z3/cvc5.'
-TECHNIQUE = "contract-based deductive verification (AST->z3 VCs on the real functions, global invariant, rely/guarantee at awaits)"
+LEVEL_NOTE = 'Proved for any number of simulators, any topology, any reply values and every interleaving, under the listed assumptions (evidence: assumptions, coverage.trusted_base). Trusted: pyvc encoder, the rely/guarantee meta-theorem, assumed contracts of asyncio/heapq, the time/delay algebra axioms (C08 provenance), static connection-table facts, z3/cvc5.'
+TECHNIQUE = 'contract-based deductive verification (AST->z3 VCs on the real functions, global invariant, rely/guarantee at awaits)'
 CLAIMED = True
-NA_REASON = "check under construction in this round"
+NA_REASON = ""
